@@ -91,6 +91,10 @@ func c14Run(sc *c14Scenario) func() (func(*vsched.Sched), func(), func(*vsched.S
 				if b := net.BoundAddrs(); len(b) > 0 {
 					vsched.Fail("waiting-for-stop returned (cycle %d) while %s still bound: the same addresses cannot be bound again", cyc, strings.Join(b, ", "))
 				}
+				if k := net.ActiveConns(); k > 0 {
+					// main.go returns (the process exits) right after AwaitStop: such a request is dropped
+					vsched.Fail("waiting-for-stop returned (cycle %d) while %d accepted request(s) are still being served: the process exits and drops them", cyc, k)
+				}
 				vsched.Observe("cycle%d:stopped", cyc)
 			}
 		}
@@ -242,6 +246,8 @@ func c14Key(f *vsched.Failure) string {
 		return "restart-address-in-use"
 	case f.Kind == "deadlock":
 		return "deadlock"
+	case strings.Contains(f.Msg, "still being served"):
+		return "AwaitStop-before-requests-complete"
 	case strings.Contains(f.Msg, "dropped before the response"):
 		return "accepted-request-dropped"
 	}
